@@ -394,11 +394,15 @@ func ruleFoldConst(w *World, r *Report, call *ssa.Call) {
 		}
 		// index is a range index over root.children
 		var childrenVal ssa.Value
-		inc, okInc := ia.Index.(*ssa.BinOp)
-		if !okInc {
+		var hdrBlock *ssa.BasicBlock
+		switch ix := ia.Index.(type) {
+		case *ssa.BinOp:
+			hdrBlock = ix.Block() // range loop: the incremented hidden index lives in the header
+		case *ssa.Phi:
+			hdrBlock = ix.Block() // counting loop: the counter itself
+		default:
 			return
 		}
-		hdrBlock := inc.Block()
 		iff, okIf := hdrBlock.Instrs[len(hdrBlock.Instrs)-1].(*ssa.If)
 		if !okIf {
 			return
